@@ -174,7 +174,7 @@ def assignments(names, values=VALUES):
                 yield dict(zip(sub, vals))
 
 
-def key_cases(rng):
+def key_cases(rng, rounds=1):
     """(tag, keys, scale_name)"""
     for sname in SCALES:
         for keys in assignments(PITCH):
@@ -190,7 +190,7 @@ def key_cases(rng):
         yield 'amp', keys, 'major12'
     for keys in assignments(DUR):
         yield 'dur', keys, 'major12'
-    for sname in SCALES:
+    for sname in list(SCALES) * rounds:
         for ps_ in powerset(PITCH):
             for as_ in powerset(AMP):
                 for ds_ in powerset(DUR):
@@ -215,6 +215,16 @@ def top_key(keys):
         if k in keys:
             return k
     return 'none'
+
+
+def key_class(k, keys):
+    if k in ('freq', 'midinote', 'note'):
+        return '%s<-%s' % (k, top_key(keys))
+    if k == 'amp':
+        return 'amp<-%s' % next((x for x in ('amp', 'db', 'velocity')
+                                 if x in keys), 'default')
+    return '%s<-%s' % (k, 'explicit' if k in keys else 'dur*stretch'
+                       + ('*legato' if k == 'sustain' else ''))
 
 
 def check_keys_case(keys, sname):
@@ -260,7 +270,7 @@ def check_keys(rep):
     distinct = set()
     samples = []
     scale_reported = False
-    for tag, keys, sname in key_cases(rep.rng):
+    for tag, keys, sname in key_cases(rep.rng, 6 if rep.tier == 'thorough' else 1):
         if tag == 'mod-only':
             n_open += 1
             continue
@@ -299,9 +309,7 @@ def check_keys(rep):
                     obligation='C14.keys.' + k,
                     what='%r scale=%s: %s' % (keys, sname, what),
                     input={'keys': keys, 'scale': sname}, observed=obs,
-                    expected=exp, key='C14.keys:%s<-%s' % (k, top_key(keys)
-                                                          if k in ('freq', 'midinote', 'note') else
-                                                          '+'.join(sorted(x for x in keys if x in AMP + DUR)) or 'default'),
+                    expected=exp, key='C14.keys:' + key_class(k, keys),
                     replay={'func': 'keys', 'args': enc((keys, sname))})
         else:
             distinct.add(enc((sorted(keys), sname)))
@@ -317,7 +325,7 @@ def check_keys(rep):
         bound='all value assignments of all subsets of %r (x3 scales), of %r, '
               'of %r, 3 values each; every non-empty pitch assignment x 16 '
               'modifier sets x 3 scales; all 4096 key subsets x 3 scales with '
-              'seeded values/modifiers' % (PITCH, AMP, DUR),
+              'seeded values/modifiers (x6 rounds in the thorough tier)' % (PITCH, AMP, DUR),
         evaluations=n, distinct_nontrivial=len(distinct),
         rule='distinct = key-name set x scale that resolved as documented; '
              'parts of a case the documentation leaves open are skipped',
@@ -404,7 +412,7 @@ def check_pairs(pairs, keys, instr, sname, problems, what='/s_new'):
 SPACING = 8.0
 
 
-def play_cases(rng):
+def play_cases(rng, every=3):
     """(keys, instrument, scale_name, server_keys)"""
     i = 0
     for sname in SCALES:
@@ -437,7 +445,7 @@ def play_cases(rng):
             for as_ in powerset(AMP):
                 for ds_ in powerset(DUR):
                     i += 1
-                    if i % 3:
+                    if i % every:
                         continue
                     keys = {k: rng.choice(VALUES[k]) for k in ps_ + as_ + ds_}
                     if ps_ and rng.random() < 0.5:
@@ -530,7 +538,8 @@ def check_play_case(case, t, bundles, raised, latency, used_ids):
 
 
 def check_play(rep, only_case=None):
-    cases = list(play_cases(rep.rng)) if only_case is None else [only_case[0]]
+    cases = list(play_cases(rep.rng, 1 if rep.tier == 'thorough' else 3)) \
+        if only_case is None else [only_case[0]]
     n = 0
     distinct = set()
     samples = []
@@ -579,7 +588,7 @@ def check_play(rep, only_case=None):
                   'every non-empty pitch assignment x 3 scales with a rotating '
                   'modifier set; all amp assignments x 3 instruments; all 1024 '
                   'duration assignments on the gated instrument (gate-off '
-                  'time) and a quarter on two others; a third of the 4096x3 '
+                  'time) and a quarter on two others; a third (thorough: all) of the 4096x3 '
                   'key subsets with seeded values, extra keys, add actions and '
                   'groups; latencies 0.2/0/0.05',
             evaluations=n, distinct_nontrivial=len(distinct),
@@ -605,6 +614,11 @@ LEAVES = {
                     'stretch': 0.5, 'db': -6}),
     'F': ('Pbind', {'instrument': 'c14p', 'freq': [500, 600, 700],
                     'dur': 0.75, 'out': [0, 1, 2], 'legato': 2, 'zzz': 3}),
+    'G': ('Pbind', {'instrument': 'c14n', 'midinote': [70, 71, 72, 73, 74],
+                    'dur': ('pat', ('Pconst', 1.25,
+                                    ('Pseq', [0.5, 0.5, 0.5, 0.5], 1, 0))),
+                    'sustain': ('pat', ('Pseries', 0.25, 0.25, 4)),
+                    'amp': 0.25}),
     'M': ('Pmono', 'c14g', {'freq': [150, 250, 350], 'dur': 0.5,
                             'amp': [0.1, 0.2, 0.3]}),
     'N': ('Pmono', 'c14n', {'freq': [160, 260], 'dur': [0.25, 0.5]}),
@@ -699,6 +713,9 @@ def build_events(expr):
     def val(v):
         if isinstance(v, tuple) and v and v[0] == 'Rest':
             return Rest(v[1])
+        if isinstance(v, tuple) and v and v[0] == 'pat':
+            from vf.specs import patterns
+            return patterns.build(v[1])
         return v
 
     def mapping(m):
@@ -958,7 +975,7 @@ def check_player(rep):
             es.timeline(expr)
         except es.Unspecified:
             continue
-        if i < depth1:
+        if i < depth1 or rep.tier == 'thorough':
             ctxs = CONTEXTS
         else:
             ctxs = [CONTEXTS[i % len(CONTEXTS)]]
@@ -983,7 +1000,7 @@ def check_player(rep):
               'and without gate); all depth-1 compositions x 4 start contexts '
               '(time 0 / 1.5, default clock / TempoClock(1), latency 0 / 0.2); '
               'depth-2 compositions over all leaf pairs (triples sampled) '
-              'x 1 rotating context' % len(leaves),
+              'x 1 rotating context (all 4 in the thorough tier)' % len(leaves),
         evaluations=n, distinct_nontrivial=len(distinct),
         rule='distinct = pattern expressions whose score met the timeline of '
              'vf/specs/events.timeline in every context tried',
